@@ -507,6 +507,11 @@ class Shapes:
             r = self.same_layer_atom(e)
             if r is not None:
                 return r
+            if isinstance(e, ast.Compare) and len(e.ops) == 1 and isinstance(e.left, ast.Call) and isinstance(e.left.func, ast.Name) and e.left.func.id == "len" and isinstance(e.comparators[0], ast.Constant) and e.comparators[0].value == 0:
+                if isinstance(e.ops[0], ast.GtE):
+                    return ("const", True)  # a length is never negative
+                if isinstance(e.ops[0], ast.Lt):
+                    return ("const", False)
             if isinstance(e, ast.Compare) and len(e.ops) == 1 and isinstance(e.left, ast.Name) and isinstance(e.left.ctx, ast.Load) and isinstance(e.comparators[0], ast.Constant):
                 # n = len(xs) ... if n != 0:   ->   if len(xs) != 0:
                 asg = assignments_of(self.view, e.left.id)
@@ -647,10 +652,12 @@ class Shapes:
                 if id(x) in seen:
                     continue
                 seen.add(id(x))
-                if isinstance(x, ast.Call):
+                if isinstance(x, (ast.Call, ast.Subscript)):
                     a = self._is_lookup(x)
                     if a is not None:
                         out.append(self._endpoint(a))
+                        for y in ast.walk(x):  # the lookup is accounted for: do not look inside it (memo tables, aliases)
+                            seen.add(id(y))
                 elif isinstance(x, ast.Name) and isinstance(x.ctx, ast.Load):
                     v = single_value(self.view, x)
                     if v is not x:
